@@ -57,6 +57,9 @@ Ancestors(c) ==
       [] c = "MultiError"        -> {"LookupError", "ValueError", "Exception", "BaseException", "object"}
       [] c = "UnsupportedOperation" -> {"OSError", "ValueError", "Exception", "BaseException", "object"}
       [] c = "DeepMultiError"    -> {"MultiError", "LookupError", "ValueError", "Exception", "BaseException", "object"}
+      \* HTTP exceptions of the application server (named in dtml-raise like the builtins)
+      [] c = "Redirect"          -> {"_HTTPMove", "HTTPRedirection", "HTTPException", "Exception", "BaseException", "object"}
+      [] c = "NotFound"          -> {"HTTPException", "Exception", "BaseException", "object"}
       \* a class outside the Exception branch (KeyboardInterrupt, SystemExit, asyncio.CancelledError, ...)
       [] c = "Cancelled"         -> {"BaseException", "object"}
       [] OTHER                   -> {"Exception", "BaseException", "object"}
@@ -729,7 +732,7 @@ TryFExc ==
 \* the class dtml-raise raises: the named one, or -- expr form -- what the expression evaluates to (here: a name bound to an
 \* exception class in the namespace); when the expression cannot be evaluated the text is tried as a well-known class name
 KnownExc == {"KeyError", "IndexError", "LookupError", "ValueError", "ZeroDivisionError", "NameError", "Exception", "OSError",
-             "TypeError", "AttributeError", "RuntimeError"}
+             "TypeError", "AttributeError", "RuntimeError", "Redirect", "NotFound"}
 RaisedClass(nd) ==
     IF ~nd.x THEN nd.cls
     ELSE LET i == Find(nd.cls) IN
